@@ -1,7 +1,7 @@
 #!/bin/bash
 # usage: tools/run_all.sh [quick|thorough] ; runs every check, prints one line each
 tier=${1:-quick}
-cd /verif
+cd "$(dirname "$0")/.."
 for i in $(seq -w 1 20); do
   id=C$i
   s=$(date +%s)
